@@ -357,6 +357,7 @@ package evaluator
 //@   loop 1 invariant forall(j, int, 0 <= j && j <= rangeindex ==> fresh(elements[j]) && okValue(elements[j]))
 //@   loop 1 modifies elements[*]
 //@   loop 2 invariant -1 <= rangeindex && storeOK() && fresh(mapCopy.Pairs) && fresh(mapCopy.Order) && forall(k, string, has(mapCopy.Pairs, k) ==> okValue(mapCopy.Pairs[k]))
+//@   loop 2 invariant forall(i, int, 0 <= i && i < len(*v.Order) ==> has(v.Pairs, (*v.Order)[i]) && okValue(v.Pairs[(*v.Order)[i]]))
 //@   loop 2 modifies mapCopy.Pairs[*]
 
 //@ func evalBinaryArrayExpr(op parser.Operator, left *arrayVal, right value) (r value, err error)
